@@ -3,7 +3,7 @@
   reply and change nothing".
 
   `Props/C03.lean` proves the clause for the storing server (`Server.handleRequest`).  In the node the
-  request passes through `Core::handle_request` first, which (before the fix 62a69ba) offered the
+  request passes through `Core::handle_request` first, which (before the fix fc1b11e) offered the
   sender of a `find_node` to the routing tables *before* the server consulted the filter: a banned
   address ended up in the tables and was advertised to others.  The check reported it (node stream,
   scenario P: `vetoed-request-changed-state`); the code now consults the filter first, and so does
